@@ -26,13 +26,21 @@ pub fn scenarios(tier: &str) -> Vec<Scenario> {
 		v.push(drop_scenario("drop-at-every-state/rc+tree/n2-x1", rc_tree_family(), 2, 1, true));
 		v.push(scenario("crash-keeps-synced/hash/n3", small_family(), 3, 0, CrashCfg { torn: 1, recovery_depth: 1, ..Default::default() }, false));
 	}
+	// reindex batches pending at the moment of the drop / crash: C09's growth family (the commit that makes the index
+	// grow, every stage schedule incl. reindex batches, reopen anywhere; crash points of every step of the growth)
+	if tier == "thorough" {
+		v.push(crate::props::c09::scenario("index-growth/drop-at-every-state/n2-x2", 1, 2, 2, None));
+		v.push(crate::props::c09::scenario("index-growth/crash-keeps-synced/n1", 9, 1, 1, Some(CrashCfg { torn: 1, recovery_depth: 2, ..Default::default() })));
+	} else {
+		v.push(crate::props::c09::scenario("index-growth/crash-keeps-synced/n1", 9, 1, 0, Some(CrashCfg { torn: 0, recovery_depth: 1, ..Default::default() })));
+	}
 	v
 }
 
 pub fn run(tier: &str) -> ! {
 	let mut run = Run::new("C03", tier, "fault_enumeration");
 	let budget = Budget::new(if tier == "thorough" { 5000.0 } else { 150.0 });
-	run.set("rule", json!("(a) drop at every pipeline state: the reopen event (drop the handle, open again) is offered at every state of the graph search (commits still queued, logged, synced, half-applied log files, several log files pending); after it every column must show all accepted commits in order. (b) crash lower bound: every crash image of every edge (see C02) is judged with lo = number of commits whose log record had been fdatasync'ed before the crash point (derived from the sync operations actually observed in the I/O trace and the pipeline model): recovery must not fall behind it"));
+	run.set("rule", json!("(a) drop at every pipeline state: the reopen event (drop the handle, open again) is offered at every state of the graph search (commits still queued, logged, synced, half-applied log files, several log files pending); after it every column must show all accepted commits in order (one family has an index growth with reindex batches pending). (b) crash lower bound: every crash image of every edge (see C02) is judged with lo = number of commits whose log record had been fdatasync'ed before the crash point (derived from the sync operations actually observed in the I/O trace and the pipeline model): recovery must not fall behind it"));
 	run.assumptions = vec![
 		"stepping mode without background threads; the threaded drop is the loom engine's subject (not built in this revision)".into(),
 		"process-crash model for (b); power loss is C12".into(),
